@@ -349,11 +349,27 @@ func (P *Program) resolveModifies(fn *ssa.Function, con *Contract) error {
 				if !ok {
 					return fmt.Errorf("modifies %s: heap(T.f)", src)
 				}
-				tn, ok := sel.X.(*ast.Ident)
-				if !ok {
+				if tn, ok := sel.X.(*ast.Ident); ok && tn.Name == "strings" && sel.Sel.Name == "Builder" {
+					// heap(strings.Builder): the ghost heap holding the text of every strings.Builder
+					mc.heaps = append(mc.heaps, builderHeap)
+					mc.sorts = append(mc.sorts, ArraySort(SInt, SStr))
+					break
+				}
+				var obj types.Object
+				if qs, isQual := sel.X.(*ast.SelectorExpr); isQual {
+					// heap(pkg.T.f): a type of an imported package
+					if pn, ok := qs.X.(*ast.Ident); ok {
+						for _, imp := range fn.Pkg.Pkg.Imports() {
+							if imp.Name() == pn.Name {
+								obj = imp.Scope().Lookup(qs.Sel.Name)
+							}
+						}
+					}
+				} else if tn, ok := sel.X.(*ast.Ident); ok {
+					obj = fn.Pkg.Pkg.Scope().Lookup(tn.Name)
+				} else {
 					return fmt.Errorf("modifies %s: heap(T.f)", src)
 				}
-				obj := fn.Pkg.Pkg.Scope().Lookup(tn.Name)
 				if obj == nil {
 					return fmt.Errorf("modifies %s: unknown type", src)
 				}
@@ -395,13 +411,16 @@ func (P *Program) resolveModifies(fn *ssa.Function, con *Contract) error {
 
 var pureFuncs = map[string]bool{}
 
+// builderHeap holds the text accumulated by each strings.Builder (keyed by its address).
+const builderHeap = "H_strings.Builder.content"
+
 var purePrefixes = []string{
 	"strings.", "strconv.", "math.", "unicode.", "unicode/utf8.", "fmt.Sprintf", "fmt.Sprint", "fmt.Errorf", "errors.New", "errors.Is",
 	"(time.Time).", "(time.Duration).", "time.Unix", "time.Date", "time.Since", "time.Duration", "(*time.Time).",
 	"(reflect.Value).", "reflect.ValueOf", "reflect.TypeOf", "(*reflect.rtype).", "reflect.DeepEqual",
 	"path.", "path/filepath.Base", "sort.SearchInts", "sort.SearchStrings", "bytes.Equal", "bytes.Compare",
 	"(*regexp.Regexp).", "regexp.MustCompile", "regexp.QuoteMeta",
-	"(*strings.Builder).String", "(*strings.Builder).Len", "(*errors.errorString).Error",
+	"(*errors.errorString).Error",
 	"(*sync/atomic.Int64).Load", "(*sync/atomic.Int32).Load", "(*sync/atomic.Bool).Load", "sync/atomic.LoadInt64", "sync/atomic.LoadInt32",
 	"(*sync/atomic.Uint64).Load", "(*sync/atomic.Value).Load",
 	"github.com/rulego/streamsql/logger.", "(*github.com/rulego/streamsql/logger.", "log.Printf", "log.Println",
@@ -498,6 +517,55 @@ func builtinModels() map[string]modelFn {
 		s, p := args[0], args[1]
 		ln := func(x T) T { return mk(SInt, "gs.len", x) }
 		return []T{ex.define("hasprefix", And(Le(ln(p), ln(s)), Eq(ex.strSub(s, IntLit(0), ln(p)), p)))}
+	}
+	// strings.Builder: the text built so far lives in a ghost heap indexed by the builder's address
+	bget := func(ex *Exec, st *State, b T) T {
+		ex.vc.needStrings()
+		return Select(ex.heapGet(st, builderHeap, ArraySort(SInt, SStr)), b)
+	}
+	bset := func(ex *Exec, st *State, b, v T) {
+		h := ex.heapGet(st, builderHeap, ArraySort(SInt, SStr))
+		ex.heapSet(st, builderHeap, Store(h, b, v))
+	}
+	m["(*strings.Builder).WriteString"] = func(ex *Exec, st *State, args []T, c *ssa.CallCommon) []T {
+		bset(ex, st, args[0], ex.strConcat(st, bget(ex, st, args[0]), args[1]))
+		return []T{mk(SInt, "gs.len", args[1]), IntLit(0)}
+	}
+	m["(*strings.Builder).WriteByte"] = func(ex *Exec, st *State, args []T, c *ssa.CallCommon) []T {
+		one := ex.vc.fresh("byte.str", SStr)
+		ex.vc.assume(st.guard, And(Eq(mk(SInt, "gs.len", one), IntLit(1)), Eq(mk(SInt, "gs.at", one, IntLit(0)), args[1])))
+		bset(ex, st, args[0], ex.strConcat(st, bget(ex, st, args[0]), one))
+		return []T{IntLit(0)}
+	}
+	m["(*strings.Builder).WriteRune"] = func(ex *Exec, st *State, args []T, c *ssa.CallCommon) []T {
+		r := ex.vc.fresh("rune.str", SStr)
+		ex.vc.assume(st.guard, And(Ge(mk(SInt, "gs.len", r), IntLit(1)), Le(mk(SInt, "gs.len", r), IntLit(4))))
+		bset(ex, st, args[0], ex.strConcat(st, bget(ex, st, args[0]), r))
+		n := ex.vc.fresh("rune.n", SInt)
+		ex.vc.assume(st.guard, Eq(n, mk(SInt, "gs.len", r)))
+		return []T{n, IntLit(0)}
+	}
+	m["(*strings.Builder).String"] = func(ex *Exec, st *State, args []T, c *ssa.CallCommon) []T {
+		return []T{bget(ex, st, args[0])}
+	}
+	m["(*strings.Builder).Len"] = func(ex *Exec, st *State, args []T, c *ssa.CallCommon) []T {
+		return []T{mk(SInt, "gs.len", bget(ex, st, args[0]))}
+	}
+	m["(*strings.Builder).Reset"] = func(ex *Exec, st *State, args []T, c *ssa.CallCommon) []T {
+		bset(ex, st, args[0], T{"gs.empty", SStr})
+		return nil
+	}
+	m["(*strings.Builder).Grow"] = func(ex *Exec, st *State, args []T, c *ssa.CallCommon) []T {
+		ex.safeOblige(st, "grow-count", Ge(args[1], IntLit(0)))
+		return nil
+	}
+	m["strings.Repeat"] = func(ex *Exec, st *State, args []T, c *ssa.CallCommon) []T {
+		// panics on a negative count; the result has count*len(s) bytes
+		ex.safeOblige(st, "repeat-count", Ge(args[1], IntLit(0)))
+		ex.vc.needStrings()
+		ex.vc.ufun("fn.strings.Repeat", []Sort{SStr, SInt}, SStr)
+		r := mk(SStr, "fn.strings.Repeat", args[0], args[1])
+		return []T{r}
 	}
 	m["strings.HasSuffix"] = func(ex *Exec, st *State, args []T, c *ssa.CallCommon) []T {
 		s, p := args[0], args[1]
